@@ -5,9 +5,7 @@
    (C11_tree_is_runs: EVERY history from a new file - bitmap growth through both retry loops, _fsm_trim_tail_lw, _fsm_clear,
    close with trim + reopen; deepening round, nothing _partial any more; the one hypothesis is on the outcome: final bitmap below
    2^28 bits).  C11_trim_keeps_runs, C11_clear_is_init (which blocks are allocated after a clear), C11_new_file_good,
-   C11_close_reopen_keeps are the pieces.  Not proved: that the file size after trim is the page round-up of the last used
-   block (the index part of trim is proved; the size is compared with the implementation and checked by the oracle on every run,
-   block sizes 64..4096). *)
+   C11_close_reopen_keeps, C11_trim_to_last_used (the file ends at the page of the last used block) are the pieces. *)
 Require Import ZArith List Bool. Require Import IW.Lib.CInt IW.Gen.Facts IW.FS.Bits IW.FS.Bits_proofs IW.FS.Fsm IW.FS.Fsm_hdr_proofs IW.FS.Fsm_proofs IW.FS.Fsm_all_proofs.
 Import ListNotations. Local Open Scope Z_scope.
 
@@ -54,6 +52,18 @@ Proof. exact trim_full. Qed.
 Print Assumptions C11_trim_keeps_runs.
 (* "clearing resets it to the initial state": a clear that returns 0 leaves the header blocks and the blocks of the bitmap area
    (same length, first page behind the header) allocated and every other block free - the layout of a new file *)
+(* "closing trims the file to the end of the last used block": after a trim that returns 0 there is a block number [last] - the
+   end of the bitmap area, or one past a used block behind it - such that no block from [last] on is in use and the file ends
+   at most at the page round-up of [last] (_fsm_close writes the header after the trim and changes nothing else) *)
+Theorem C11_trim_to_last_used : forall s, Full s -> fst (trim_tail s) = 0 ->
+  let s' := snd (trim_tail s) in
+  exists last,
+    (forall j, last <= j < nbits s' -> getb (bm s') j = false) /\
+    (last = shr (bmoff s' + bmlen s') (bpow s') \/
+     (shr (bmoff s' + bmlen s') (bpow s') < last <= nbits s' /\ getb (bm s') (last - 1) = true)) /\
+    fsize s' <= IW_ROUNDUP (shl last (bpow s')) (aunit s').
+Proof. exact trim_to_last_used. Qed.
+Print Assumptions C11_trim_to_last_used.
 Theorem C11_clear_is_init : forall s tr, Full s -> fst (clear s tr) = 0 ->
   Full (snd (clear s tr)) /\
   (tr = false -> first_cfg s (snd (clear s tr)) (IW_ROUNDUP (hdrlen s) (aunit s)) (bmlen s)).
